@@ -150,6 +150,20 @@ CLAIMED['C20'] = (
     'exercises), not proved; OS / argparse trusted; F4 fixed in /repo (4506c80)',
     'Lean 4 theorems over a path-plan model + differential correspondence of entry points (subprocess CLI / client / Monte-Carlo)')
 
+CLAIMED['C06'] = (
+    'Lean theorems over a unit model built from SI definitions (not from pint): conversion preserves the denoted quantity, is a bijection, composes; the reader '
+    'stores the same number however the same quantity is written; a reader state whose recorded unit matches its number is echoed faithfully, while the pinned '
+    'reader echoes the twice-converted number (kernel-evaluated witness = finding F8); currency prefixes (repaired input path correct for all 9 prefix pairs, pinned '
+    'one right iff the prefixes agree = F6, fixed); the output directive multiplies by the exact factor and round-trips. Obligations over tables regenerated from '
+    'Units.py and the ParameterDicts on each run: every catalogue member of every class used by an input resolves to atoms of the class dimension or is in the '
+    'explicit exclusion list (which is proved tight), and the declarations whose current unit differs from the preferred one are exactly the three listed (F22). '
+    'Tie: exhaustive differential of the real ReadParameter + ConvertUnitsBack against the Lean reader on every (float parameter, catalogue unit) pair; whole-run '
+    'pairs (all computed quantities equal, changed report lines compared as quantities); output-directive pairs (changed lines must carry the new label and the '
+    'exact factor).',
+    'floating-point conversion error is not modelled (agreement at 1e-9); angles (irrational factor) and other currencies are outside the model; known findings '
+    'F8 (echo double conversion), F16 (output directive, 37 report lines), F21 (compound currency units), F22 (3 declarations); F6, F7, F23 fixed in /repo',
+    'Lean 4 theorems over an SI-definition unit model + kernel-decided catalogue obligations (translator) + exhaustive differential correspondence')
+
 CLAIMED['C08'] = (
     'Lean refinement proof over the client state machine (cwd, argv, cache, files; operations request / rewrite / chdir), for every finite history '
     'incl. failing requests and rewrites between calls: the outputs of the (repaired) client equal those of a cache-free, history-free specification '
